@@ -101,6 +101,11 @@ def _is_builder_by_name(an, fn) -> bool:
             return True
     if top.cls is not None and top.cls.is_subclass_of(Base) and top.name.startswith("_create_helper"):
         return True
+    # the flattened form of such a factory (engine/normalize.py writes `factory(a)(b)` as `_flat_factory(a, b)`)
+    if top is fn and fn.cls is None and fn.name.startswith("_flat_"):
+        orig = fn.module.functions.get(fn.name[len("_flat_"):])
+        if orig is not None and orig.nested and any(_is_builder_by_name(an, nf) for nf in orig.nested):
+            return True
     # a class-level registration API (`@classmethod def register_x(cls, ...)`, like ConfigFormat.register) that nothing in the
     # package calls: it is run by the application while it sets the library up, not by a configuration
     if top is fn and fn.cls is not None and isinstance(fn.node, ast.FunctionDef) and any(
